@@ -6,7 +6,12 @@
 mod c11;
 mod c19;
 mod c20;
+mod astabs;
 mod engine;
+mod layout;
+mod model;
+mod modelgen;
+mod synprops;
 mod lexgen;
 mod lexprops;
 mod pipeline;
@@ -21,6 +26,9 @@ fn run_property(id: &str, ctx: &RunCtx) -> bool {
         "C01" => textprops::run(textprops::P::C01, ctx),
         "C02" => textprops::run(textprops::P::C02, ctx),
         "C14" => textprops::run(textprops::P::C14, ctx),
+        "C04" => synprops::run_c04(ctx),
+        "C05" => synprops::run_c05(ctx),
+        "C16" => synprops::run_c16(ctx),
         "C11" => c11::run(ctx),
         "C15" => lexprops::run_c15(ctx),
         "C19" => c19::run(ctx),
@@ -50,6 +58,9 @@ fn replay_input(id: &str, v: &Value) -> Result<Vec<Failure>, String> {
         "C20" => c20::replay_types(v),
         "C15" => lexprops::replay_c15(v),
         "C11" => c11::replay(v),
+        "C04" => synprops::replay_c04(v),
+        "C05" => synprops::replay_c05(v),
+        "C16" => synprops::replay_c16(v),
         _ => Err(format!("no replay for {id}")),
     }
 }
